@@ -17,7 +17,7 @@ RULE = ("a Hypothesis generator assembles well-typed base programs from typed sn
         "a present OPTIONAL of the expected type, a near-miss function / list / map / class type, a fixed-shape list literal with "
         "a wrong / extra / missing element, a return statement replaced by a print (missing return on one path), "
         "one argument more / fewer, bare return, value returned from a void function, undeclared identifier, unknown field / "
-        "method, a method read as a value or a field called at the end of a dot chain of one to three links, call of a non-function, index of a non-indexable, operator on unsupported kinds. Oracle per mutant: exit status "
+        "method, a method read as a value or a field called at the end of a dot chain of one to three links, call of a non-function, index of a non-indexable, operator on unsupported kinds. Two ENUMERATED matrices are added to the random programs: (a) typed positions - 7 expected types (open list, fixed-shape list, map, function, object, list of objects, optional) x 12 positions (declaration, re-assignment, argument, return from a function / method / closure / second return path, field initialisation and assignment, list element, push, map value) x every near-miss value of the type (other element / key / value / return type, OPTIONAL elements or results, other arity or length, optional of the type); (b) scope visibility - a name that IS declared, used where its scope does not reach (other branch of the same if, else-if condition, after a loop, outside a function / class, in a sibling function or method, parameters of another method, methods by their bare name, before the declaration). Oracle per mutant: exit status "
         "1 (not 101/134), a diagnostic `--> <right file>:<line of the mutated statement>:col`, and none of the program's output "
         "(`@START` is its first statement). evaluations = mutants. Non-trivial = the site is nested (not a top-level statement of "
         "the entry module); distinct by (program, site, fault)")
@@ -35,7 +35,19 @@ WRONG = {
     # near-miss function types for `fn(int) -> int`: other return type, no return value, other arity, other parameter type
     "fn1": ["g_fs", "g_fv", "add", "greet", "7", "g_list"],
     "map": ["g_map_ss", "g_map_is", "7", "g_list"],
+    # families of the typed-position matrix (every entry is applied at every position)
+    "T-list": ["g_slist", "g_oilist", "g_llist", "g_olist", "g_pair_is", "g_opair", "7", "g_map"],
+    "T-fixed": ["g_oilist", "g_pair_is", "g_opair", "g_triple", "g_slist", "7"],
+    "T-map": ["g_map_ss", "g_map_so", "g_map_is", "g_list", "7"],
+    "T-fn": ["g_fs", "g_fo", "g_fv", "g_f2", "greet", "7"],
+    "T-obj": ["g_other", "g_oobj", "7", "g_lobj"],
+    "T-lobj": ["g_olobj", "g_list", "g_obj"],
+    "T-optint": ["g_ostr", "\"txt\"", "g_list", "g_oilist"],
 }
+# expected type text, a well-typed value, whether the declaration must be const
+TYPED = {"T-list": ("[int...]", "g_list", False), "T-fixed": ("[int, int]", "g_pair", True), "T-map": ("map[str, int]", "g_map", False), "T-fn": ("fn(int) -> int", "g_fn", False),
+         "T-obj": ("G", "g_obj", False), "T-lobj": ("[G...]", "g_lobj", False), "T-optint": ("int?", "g_oint", False)}
+POSITIONS = ["decl", "reassign", "argument", "return", "return-method", "return-closure", "field-init", "field-assign", "element", "push", "mapvalue", "branch-return"]
 PRELUDE = """g_list: [int...] = [1, 2, 3]
 g_fn = fn(u: int) -> int {
 	return u
@@ -106,6 +118,21 @@ g_oint: int? = 5
 g_ostr: str? = "s"
 g_obool: bool? = true
 g_olist: [int...]? = [1, 2]
+g_llist: [[int...]...] = [[1]]
+const g_pair: [int, int] = [1, 2]
+const g_pair_is: [int, str] = [1, "a"]
+const g_opair: [int?, int?] = [1, nil]
+const g_triple: [int, int, int] = [1, 2, 3]
+g_map_so = map[str, int?] {"k": nil}
+g_fo = fn(u: int) -> int? {
+	return nil
+}
+g_f2 = fn(u: int, w: int) -> int {
+	return u
+}
+g_oobj: G? = G()
+g_olobj: [G?...] = [G(), nil]
+g_lobj: [G...] = [G()]
 """
 # a present optional of the expected type: `T?` where `T` is wanted is a type error in every typed position
 # (the compiler's own hint: "unwrap this optional ... using the `get` keyword"); operator operands are exempt
@@ -498,6 +525,10 @@ def render(files, sites, mutate=None):
 def faults(site):
     """[(fault name, replacement text)]"""
     out = []
+    if site.kind == "scope":
+        return [("out-of-scope-name:" + n, n) for n in site.extra]
+    if site.family.startswith("T-"):
+        return [("near-miss-type:" + w, w) for w in WRONG[site.family]] + [("undeclared-name", "undeclared_zz")]
     k = site.kind
     if k in ("value", "return", "return-inner", "index", "operand"):
         fam = site.family
@@ -669,6 +700,131 @@ def check(case):
 
 class _Case(dict):
     pass
+
+
+def position_matrix():
+    """one program per (typed position, expected type) with ONE site; every near-miss value of the family is applied to it"""
+    out = []
+    for fam, (ty, good, const) in TYPED.items():
+        for pos in POSITIONS:
+            b = Builder(None, "main.ms")
+            b.add("print \"@START\"")
+            site = lambda: b.site(fam, good)
+            c = "const " if const else ""
+            if pos == "decl":
+                b.add("%sv1: %s = %s" % (c, ty, site()))
+            elif pos == "reassign":
+                if const:
+                    continue
+                b.add("v1: %s = %s" % (ty, good))
+                b.add("v1 = %s" % site())
+            elif pos == "argument":
+                b.add("take = fn(p: %s) -> int {" % ty)
+                b.add("\treturn 1")
+                b.add("}")
+                b.add("print take(%s)" % site())
+            elif pos == "return":
+                b.add("mk = fn() -> %s {" % ty)
+                b.add("\treturn %s" % site())
+                b.add("}")
+                b.add("%sr1 = mk()" % c)
+            elif pos == "return-method":
+                b.add("class Mk {")
+                b.add("\tfn mk(self) -> %s {" % ty)
+                b.add("\t\treturn %s" % site())
+                b.add("\t}")
+                b.add("}")
+                b.add("mo = Mk()")
+                b.add("%sr1 = mo.mk()" % c)
+            elif pos == "return-closure":
+                b.add("mk = fn() -> fn() -> %s {" % ("(%s)" % ty if ty.startswith("fn") else ty))
+                b.add("\treturn fn() -> %s {" % ty)
+                b.add("\t\treturn %s" % site())
+                b.add("\t}")
+                b.add("}")
+                b.add("inner = mk()")
+                b.add("%sr1 = inner()" % c)
+            elif pos == "branch-return":
+                b.add("mk = fn(flag: bool) -> %s {" % ty)
+                b.add("\tif flag {")
+                b.add("\t\treturn %s" % good)
+                b.add("\t}")
+                b.add("\treturn %s" % site())
+                b.add("}")
+                b.add("%sr1 = mk(true)" % c)
+            elif pos == "field-init":
+                b.add("class Fd {")
+                b.add("\tv: %s" % ty)
+                b.add("\tconstructor(self) {")
+                b.add("\t\tself.v = %s" % site())
+                b.add("\t}")
+                b.add("}")
+                b.add("fo = Fd()")
+            elif pos == "field-assign":
+                b.add("class Fd {")
+                b.add("\tv: %s" % ty)
+                b.add("\tconstructor(self) {")
+                b.add("\t\tself.v = %s" % good)
+                b.add("\t}")
+                b.add("}")
+                b.add("fo = Fd()")
+                b.add("fo.v = %s" % site())
+            elif pos == "element":
+                b.add("l1: [%s...] = [%s, %s]" % (ty, good, site()))
+            elif pos == "push":
+                b.add("l1: [%s...] = [%s]" % (ty, good))
+                b.add("l1.push(%s)" % site())
+            elif pos == "mapvalue":
+                b.add("m1 = map[str, %s] {\"k\": %s}" % (ty, site()))
+            b.add("print \"@END\"")
+            out.append({"files": {"main.ms": PRELUDE + "\n".join(b.lines) + "\n"}, "sites": list(b.sites), "matrix": "%s|%s" % (pos, fam)})
+    return out
+
+
+def scope_matrix():
+    """a name that IS declared - but in a scope that does not reach the place of use (another branch of the same if, a loop body
+    that has ended, a function's locals and parameters seen from outside, an inner block) must be diagnosed like an unknown name.
+    One program per using place; the site's faults are all the names that are out of scope there."""
+    out = []
+
+    def prog(tag, lines, hidden):
+        b = Builder(None, "main.ms")
+        b.add("print \"@START\"")
+        b.add("vis = 1")
+        for l in lines:
+            if "{USE}" in l:
+                l = l.replace("{USE}", b.site("scope", "vis", "scope", hidden))
+            b.add(l)
+        b.add("print \"@END\"")
+        out.append({"files": {"main.ms": PRELUDE + "\n".join(b.lines) + "\n"}, "sites": list(b.sites), "matrix": "scope|" + tag})
+    IF = ["if vis == 1 {", "\tin_then = 2", "\tif vis == 1 {", "\t\tin_nested = 3", "\t}", "{T}", "} else if vis == 2 {", "\tin_elif = 4", "{EI}", "} else {", "\tin_else = 5", "{E}", "}", "{A}"]
+
+    def iff(**kw):
+        sub = {"{T}": kw.get("T", "\tprint vis"), "{EI}": kw.get("EI", "\tprint vis"), "{E}": kw.get("E", "\tprint vis"), "{A}": kw.get("A", "print vis")}
+        return [sub.get(l, l) for l in IF]
+    prog("use-in-then", iff(T="\tprint {USE}"), ["in_nested", "in_elif", "in_else"])
+    prog("use-in-else-if-body", iff(EI="\tprint {USE}"), ["in_then", "in_nested", "in_else"])
+    prog("use-in-else", iff(E="\tprint {USE}"), ["in_then", "in_nested", "in_elif"])
+    prog("use-after-if", iff(A="print {USE}"), ["in_then", "in_nested", "in_elif", "in_else"])
+    prog("use-in-else-if-condition", ["if vis == 2 {", "\tin_then = 2", "} else if {USE} == 1 {", "\tprint vis", "}"], ["in_then"])
+    prog("use-in-else-assignment", ["if vis == 2 {", "\tin_then = 2", "} else {", "\tcopy = {USE} + 1", "\tprint copy", "}"], ["in_then"])
+    prog("use-after-while", ["n0 = 0", "while n0 < 1 {", "\tn0 = n0 + 1", "\tin_while = 2", "}", "print {USE}"], ["in_while"])
+    prog("use-after-from", ["from 0 to 2, counter {", "\tin_from = 2", "}", "print {USE}"], ["in_from", "counter"])
+    prog("use-outside-function", ["f0 = fn(param: int) -> int {", "\tlocal = param + 1", "\tinner = fn() -> int {", "\t\tdeep = 1", "\t\treturn deep", "\t}", "\treturn local + inner()", "}", "print f0(1)", "print {USE}"],
+         ["param", "local", "inner", "deep"])
+    prog("use-in-sibling-function", ["f0 = fn(param: int) -> int {", "\tlocal = param + 1", "\treturn local", "}", "f1 = fn() -> int {", "\treturn {USE}", "}", "print f0(1) + f1()"], ["param", "local"])
+    prog("use-in-closure-of-outer-function", ["f0 = fn() -> int {", "\tif vis == 1 {", "\t\tin_block = 2", "\t}", "\tg0 = fn() -> int {", "\t\treturn {USE}", "\t}", "\treturn g0()", "}", "print f0()"], ["in_block"])
+    prog("use-outside-class", ["class Sc {", "\tfield: int", "\tconstructor(self, cp: int) {", "\t\tself.field = cp", "\t}", "\tfn meth(self, mp: int) -> int {", "\t\tml = mp", "\t\treturn ml", "\t}", "}", "so = Sc(1)", "print so.meth(2)", "print {USE}"],
+         ["field", "cp", "mp", "ml", "meth"])
+    prog("use-in-method-of-other-method", ["class Sc {", "\tfn one(self, mp: int) -> int {", "\t\tml = mp", "\t\treturn ml", "\t}", "\tfn two(self) -> int {", "\t\treturn {USE}", "\t}", "}", "so = Sc()", "print so.one(2) + so.two()"], ["mp", "ml"])
+    prog("bare-method-name-in-method", ["class Sc {", "\tfn value(self) -> int {", "\t\treturn 3", "\t}", "\tfn three(self) -> int {", "\t\treturn {USE}", "\t}", "}", "so = Sc()", "print so.three()"], ["value()", "value", "three()"])
+    prog("bare-method-name-in-closure-of-method", ["class Sc {", "\tfn value(self) -> int {", "\t\treturn 3", "\t}", "\tfn three(self) -> int {", "\t\tq = fn() -> int {", "\t\t\treturn {USE}", "\t\t}", "\t\treturn q()", "\t}", "}", "so = Sc()", "print so.three()"], ["value()"])
+    prog("use-before-declaration", ["print {USE}", "later = 2", "print later"], ["later"])
+    return out
+
+
+def enumerated(tier, seed):
+    return position_matrix() + scope_matrix()
 
 
 @st.composite
